@@ -670,7 +670,7 @@ Qed.
 Print Assumptions C02_every_simulated_row_with_filters_is_optimal_for_the_specifications_solution.
 
 (* ---- the data state-choice space: the regenerated create_data_scs (Gen/DataSCS.v) ------------------------------------------ *)
-From LCM Require Import Model.Dispatchers Gen.DataSCS Proofs.C02_DataSCS Proofs.C02_DataSCSTie.
+From LCM Require Import Model.Dispatchers Model.PyVocab Gen.DataSCS Proofs.C02_DataSCS Proofs.C02_DataSCSTie.
 (* With filter-restricted choices, create_data_scs returns: one row per (agent, filter-passing combination of the restricted      *)
 (* choices), agents in order, combinations in row-major order; a state's column repeats the agent's value, a restricted choice's   *)
 (* column lists the combination's grid value, the segment of a row is its agent; the dense variables are the dense discrete        *)
